@@ -7,6 +7,7 @@ import (
 	"os"
 	"os/exec"
 	"path/filepath"
+	"runtime"
 	"strings"
 	"sync"
 	"sync/atomic"
@@ -14,6 +15,7 @@ import (
 
 	"go.brendoncarroll.net/p2p"
 	"go.brendoncarroll.net/p2p/p/kademlia"
+	"go.brendoncarroll.net/p2p/s/memswarm"
 
 	"verifharness/internal/sx"
 )
@@ -69,6 +71,12 @@ func runC14(c *ctxT) {
 			c.emit(sx.L(sx.S("race"), sx.S(fam), sx.N(seed)), sx.L(sx.S(status), sx.I(n)))
 			c.count("race/" + fam + "/" + status)
 		}
+	}
+	// buffer ownership in the bounded queue of vswarm / memswarm
+	for i := 0; i < c.scale(10, 100); i++ {
+		changed := memQueueOwnership(200)
+		c.emit(sx.L(sx.S("own"), sx.S("memswarm-queue"), sx.I(i)), sx.L(sx.S("changed"), sx.I(changed)))
+		c.count("own/memswarm-queue")
 	}
 	// buffer ownership: callbacks hold their message while concurrent traffic flows
 	slowCallbacks = true
@@ -175,5 +183,64 @@ func runC14race(c *ctxT) {
 	}
 	wg.Wait()
 	w.close()
+	memQueueOwnership(300)
 	c.emit(sx.L(sx.S("race-workload"), sx.I(1)), sx.L(sx.S("done")))
+}
+
+// memQueueOwnership: several senders Tell one vswarm node (bounded Queue with few
+// slots); the receiver's callbacks hold their message and checksum it before and
+// after.  Returns how many callbacks saw their message change.
+func memQueueOwnership(rounds int) int {
+	realm := memswarm.NewRealm(memswarm.WithQueueLen(2))
+	rcv := realm.NewSwarm()
+	ctx, cancel := context.WithCancel(context.Background())
+	defer cancel()
+	var changed atomic.Int64
+	var rwg sync.WaitGroup
+	for k := 0; k < 2; k++ {
+		rwg.Add(1)
+		go func() {
+			defer rwg.Done()
+			for {
+				if err := rcv.Receive(ctx, func(m p2p.Message[memswarm.Addr]) {
+					h0 := fnv64(m.Payload)
+					uniform := true
+					for _, b := range m.Payload {
+						if b != m.Payload[0] {
+							uniform = false
+						}
+					}
+					for i := 0; i < 3; i++ {
+						runtime.Gosched()
+						time.Sleep(10 * time.Microsecond)
+					}
+					if fnv64(m.Payload) != h0 || !uniform {
+						changed.Add(1)
+					}
+				}); err != nil {
+					return
+				}
+			}
+		}()
+	}
+	var swg sync.WaitGroup
+	for s := 0; s < 4; s++ {
+		s := s
+		snd := realm.NewSwarm()
+		swg.Add(1)
+		go func() {
+			defer swg.Done()
+			defer snd.Close()
+			for i := 0; i < rounds; i++ {
+				buf := bytes.Repeat([]byte{byte(1 + s*16 + i%16)}, 64+8*s)
+				_ = snd.Tell(ctx, rcv.LocalAddrs()[0], p2p.IOVec{buf})
+			}
+		}()
+	}
+	swg.Wait()
+	time.Sleep(2 * time.Millisecond)
+	cancel()
+	rcv.Close()
+	rwg.Wait()
+	return int(changed.Load())
 }
